@@ -10,6 +10,8 @@ import (
 	"encoding/json"
 	"fmt"
 	"net"
+	"os"
+	"os/exec"
 	"strconv"
 	"strings"
 	"sync"
@@ -31,6 +33,9 @@ type VSes struct {
 	Enc        string   `json:"enc"`
 	Comp       string   `json:"comp"`
 	Round      *int     `json:"round"`
+	// on the wire only (Model C does not look at them): a failed envelope without its reason member; a pp member
+	Bare bool `json:"bare,omitempty"`
+	PP   int  `json:"pp,omitempty"`
 }
 
 type SIn struct {
@@ -104,7 +109,10 @@ func (s SIn) line() []byte {
 		m["scheme"] = "plain"
 		m["authentication"] = map[string]string{"password": fmt.Sprintf("rt%d", *v.Round)}
 	}
-	if v.State == "failed" {
+	if v.PP != 0 {
+		m["pp"] = nodeTok(v.PP)
+	}
+	if v.State == "failed" && !v.Bare {
 		m["reason"] = map[string]interface{}{"code": 1, "description": "scripted"}
 	}
 	b, _ := json.Marshal(m)
@@ -295,6 +303,8 @@ type CObs struct {
 	EstAPI  bool   `json:"established_api"`
 	ErrText string `json:"err,omitempty"`
 	Client  *bool  `json:"client_published,omitempty"` // the high-level Client published a channel for this script
+	// the high-level Client panicked while establishing over this script
+	ClientPanic string `json:"client_panic,omitempty"`
 }
 
 func (o *CObs) Coq() string {
@@ -313,7 +323,7 @@ func (o *CObs) Coq() string {
 	}
 	return coqfmt.Record("co_trace", coqfmt.List(tr), "co_out", out, "co_state", coqState(o.State), "co_sid", coqfmt.Str(o.SID),
 		"co_local", coqfmt.Nat(o.Local), "co_remote", coqfmt.Nat(o.Remote), "co_closed", coqfmt.Bool(o.Closed),
-		"co_est", coqfmt.Bool(o.EstAPI), "co_client", optBool(o.Client))
+		"co_est", coqfmt.Bool(o.EstAPI), "co_client_panic", coqfmt.Bool(o.ClientPanic != ""), "co_client", optBool(o.Client))
 }
 
 func optBool(b *bool) string {
@@ -326,7 +336,7 @@ func optBool(b *bool) string {
 // runClientEstablish gives a real high-level Client a transport factory whose every connection is
 // answered with the script, and reports whether Establish published a channel within its deadline
 // (Client.buildChannel must only publish a channel for a session the server established).
-func runClientEstablish(conf *CConf, script []SIn) bool {
+func runClientEstablish(conf *CConf, script []SIn) (bool, string) {
 	var conns []*memconn.Conn
 	var mu sync.Mutex
 	cfg := lime.NewClientConfig()
@@ -362,8 +372,13 @@ func runClientEstablish(conf *CConf, script []SIn) bool {
 		return lime.NewTCPTransportOverConn(cmem, false, nil), nil
 	}
 	published := false
+	panicked := ""
 	func() {
-		defer func() { _ = recover() }()
+		defer func() {
+			if p := recover(); p != nil {
+				panicked = fmt.Sprint(p)
+			}
+		}()
 		client := lime.NewClient(cfg, &lime.EnvelopeMux{})
 		ctx, cancel := context.WithTimeout(context.Background(), 150*time.Millisecond*slack)
 		published = client.Establish(ctx) == nil
@@ -380,7 +395,7 @@ func runClientEstablish(conf *CConf, script []SIn) bool {
 		case <-time.After(3 * time.Second):
 		}
 	}()
-	return published
+	return published, panicked
 }
 
 type CCase struct {
@@ -621,4 +636,66 @@ func runClientScript(conf *CConf, script []SIn) *CObs {
 	_ = cc.Close()
 	_ = cmem.Close()
 	return obs
+}
+
+// ---- the high-level Client in a process of its own: a panic in one of its goroutines cannot be recovered ----
+
+type c08EstReq struct {
+	Conf   *CConf `json:"conf"`
+	Script []SIn  `json:"script"`
+}
+
+func c08EstChild(args []string) {
+	var r c08EstReq
+	if len(args) < 1 || json.Unmarshal([]byte(args[0]), &r) != nil {
+		os.Exit(2)
+	}
+	p, pan := runClientEstablish(r.Conf, r.Script)
+	b, _ := json.Marshal(map[string]interface{}{"published": p, "panic": pan})
+	fmt.Printf("C08EST %s\n", b)
+	os.Exit(0)
+}
+
+func init() { childCmds["c08est"] = c08EstChild }
+
+// runClientEstablishIsolated: (published, panic text); a crash of the child process is a panic
+func runClientEstablishIsolated(conf *CConf, script []SIn) (bool, string) {
+	b, _ := json.Marshal(c08EstReq{Conf: conf, Script: script})
+	cmd := exec.Command(os.Args[0], "child", "c08est", string(b))
+	cmd.Env = os.Environ()
+	var out, errb strings.Builder
+	cmd.Stdout = &out
+	cmd.Stderr = &errb
+	done := make(chan error, 1)
+	if err := cmd.Start(); err != nil {
+		return runClientEstablish(conf, script)
+	}
+	go func() { done <- cmd.Wait() }()
+	select {
+	case <-done:
+	case <-time.After(60 * time.Second * slack):
+		_ = cmd.Process.Kill()
+		return false, "the client's establishment did not come to an end"
+	}
+	for _, line := range strings.Split(out.String(), "\n") {
+		if strings.HasPrefix(line, "C08EST ") {
+			var r struct {
+				Published bool   `json:"published"`
+				Panic     string `json:"panic"`
+			}
+			_ = json.Unmarshal([]byte(strings.TrimPrefix(line, "C08EST ")), &r)
+			return r.Published, r.Panic
+		}
+	}
+	txt := errb.String()
+	if i := strings.Index(txt, "panic:"); i >= 0 {
+		txt = txt[i:]
+	}
+	if len(txt) > 300 {
+		txt = txt[:300]
+	}
+	if txt == "" {
+		txt = "the process of the client ended without a result"
+	}
+	return false, txt
 }
